@@ -401,9 +401,13 @@ func (g *GateInst) Apply(op string) (string, string) {
 				}
 			}
 		}
-		// emitted oldest first: compositions of this step (other than the own flush) follow opening order
+		// expired groups are emitted oldest first: the compositions of a sweeping step (other than the own
+		// flush) follow opening order. (FlushAll / Close only promise "each exactly once".)
 		last := int64(-1)
 		for _, c := range comps {
+			if !sweeping {
+				break
+			}
 			for _, gr := range atStart {
 				if gr.id == c.ID && seqsEq(gr.seqs, c.Seqs) {
 					if gr.openAt < last {
